@@ -2,8 +2,8 @@
 # try_seed.sh <worktree> <A|B> <Cxx> [tier]  - run ./check Cxx against the worktree with the seeded change applied (evidence goes to evidence-scratch/)
 WT="$1"; X="$2"; ID="$3"; TIER="${4:-quick}"
 cd "$WT" || exit 2
-git checkout -- . ; git apply "seed_out/$X.patch.diff" || exit 2
-cd /verif && VERIF_REPO="$WT" timeout 3000 ./check "$ID" --tier "$TIER" > "$WT/seed_out/$X.check_$TIER.log" 2>&1; e=$?
-echo "check_exit=$e" >> "$WT/seed_out/$X.check_$TIER.log"
+git checkout -- . ; git apply "${SEED_DIR:-seed_out}/$X.patch.diff" || exit 2
+cd /verif && VERIF_REPO="$WT" timeout 3000 ./check "$ID" --tier "$TIER" > "$WT/${SEED_DIR:-seed_out}/$X.check_$TIER.log" 2>&1; e=$?
+echo "check_exit=$e" >> "$WT/${SEED_DIR:-seed_out}/$X.check_$TIER.log"
 cd "$WT" && git checkout -- .
-grep -E "^VIOLATION|check_exit|KNOWN|UNDECIDED" "$WT/seed_out/$X.check_$TIER.log" | head
+grep -E "^VIOLATION|check_exit|KNOWN|UNDECIDED" "$WT/${SEED_DIR:-seed_out}/$X.check_$TIER.log" | head
